@@ -140,6 +140,11 @@ def json_faults(sess, suite, t, text):
             o["header"]["ciphersuite"] = twin; muts.append(("a ciphersuite string with the same CRC-32 as the real ID", o))
     o = json.loads(text); o["header"]["ciphersuite"] = o["header"]["ciphersuite"].lower(); muts.append(("ciphersuite id in lower case", o))
     o = json.loads(text); o["header"]["ciphersuite"] = o["header"]["ciphersuite"][:-1]; muts.append(("truncated ciphersuite id", o))
+    if t == "dkg1package" and isinstance(obj.get("proof_of_knowledge"), str):
+        pk = obj["proof_of_knowledge"]
+        for k in sorted({0, 2, len(pk) // 2 - (len(pk) // 2) % 2, len(pk) - 2}):
+            o = json.loads(text); o["proof_of_knowledge"] = pk[:k]; muts.append(("a proof of knowledge shortened to %d of %d hex digits" % (k, len(pk)), o))
+        o = json.loads(text); o["proof_of_knowledge"] = pk + "00"; muts.append(("a proof of knowledge lengthened by one byte", o))
     o = json.loads(text); o["extra_field"] = 1; muts.append(("unknown field", o))
     o = json.loads(text); del o["header"]; muts.append(("missing header", o))
     for name, o in muts:
@@ -174,6 +179,16 @@ def container_faults(sess, suite, typ, b, thorough):
     for _ in range(40 if thorough else 8):
         p = rng.randrange(len(raw))
         muts.append(("byte", raw[:p] + bytes([rng.randrange(256)]) + raw[p + 1:], None))
+    if t == "dkg1package":
+        # the proof of knowledge is the last field, a length-prefixed byte string: a SHORTER (or longer) signature with a
+        # consistent length prefix is still not a signature
+        for L in (8, 64, 65, 114):
+            if len(raw) > L + 1 and raw[len(raw) - L - 1] == L:
+                head, sig = raw[:len(raw) - L - 1], raw[len(raw) - L:]
+                for k in sorted({0, 1, L // 2, L - Fld(suite).n, L - 1}):
+                    muts.append(("proof of knowledge shortened to %d of %d bytes" % (k, L), head + bytes([k]) + sig[:k], True))
+                muts.append(("proof of knowledge lengthened by one byte", head + bytes([L + 1]) + sig + b"\x00", True))
+                break
     for name, m, must_reject in muts:
         if m == raw:
             continue
